@@ -182,6 +182,15 @@ func dateLayoutLanguages(e *Env, rule string, extra ...string) *dateLayout {
 			return pred.Const{V: constant.MakeBool(true)}, nil
 		},
 	}
+	newInlined(sums, func(a []pred.Val) pred.Val { return pred.Term{Fn: "New", Args: a} })
+	for k, acc := range []string{"Year", "Month", "Day"} {
+		k := k
+		if _, has := sums["(go.lstv.dev/util/date.Date)."+acc]; !has {
+			sums["(go.lstv.dev/util/date.Date)."+acc] = func(ev *pred.Evaluator, args []pred.Val) (pred.Val, error) {
+				return pred.Term{Fn: fmt.Sprintf("Date#%d", k), Args: args[:1]}, nil
+			}
+		}
+	}
 	mk := func() []pred.Val { return []pred.Val{pred.Sym{Name: "input"}, pred.Sym{Name: "r"}} }
 	leaves, err := extractTree(e.P.SSA, dp, mk, sums, fixed, keyOf, domain)
 	if err != nil {
@@ -416,6 +425,15 @@ func ruleC09Sem(e *Env) {
 		"strconv.Atoi": func(ev *pred.Evaluator, args []pred.Val) (pred.Val, error) {
 			return pred.Tuple{pred.Term{Fn: "num", Args: args}, pred.Const{}}, nil
 		},
+	}
+	newInlined(sums, func(a []pred.Val) pred.Val { return pred.Term{Fn: "New", Args: a} })
+	for k, acc := range []string{"Year", "Month", "Day"} {
+		k := k
+		if _, has := sums["(go.lstv.dev/util/date.Date)."+acc]; !has {
+			sums["(go.lstv.dev/util/date.Date)."+acc] = func(ev *pred.Evaluator, args []pred.Val) (pred.Val, error) {
+				return pred.Term{Fn: fmt.Sprintf("Date#%d", k), Args: args[:1]}, nil
+			}
+		}
 	}
 	for _, n := range []string{"(*regexp.Regexp).FindSubmatch", "(*regexp.Regexp).FindStringSubmatch"} {
 		sums[n] = func(ev *pred.Evaluator, args []pred.Val) (pred.Val, error) {
